@@ -38,6 +38,10 @@ def run(ctx):
                     continue
                 ctx.missing('C01.R1', fn)
             sc = Scan(ctx, F, fn, tag, 'C01.R1')
+            if sc.state_machine:
+                ctx.undecided('C01.R1', '%s: the scan loop dispatches on a state variable %s assigned inside the loop: the per-iteration path rules do not apply' % (tag, sc.state_machine))
+                undecided_engine = True
+                continue
             sub = _Rec(ctx)
             r1(sub, F, sc, conf)
             r2(sub, F, sc)
